@@ -789,7 +789,9 @@ def eager_reduction_tensor(op, arg):
     dtype = find_domain(op, arg.output).dtype
 
     if not arg.output.shape:
-        return Tensor(op(ops.unsqueeze(arg.data, -1), -1), arg.inputs, dtype)
+        # a scalar stays a scalar, also with keepdims=True
+        data = op(ops.unsqueeze(arg.data, -1), axis=-1, keepdims=False)
+        return Tensor(data, arg.inputs, dtype)
 
     if not arg.inputs:
         return Tensor(op(arg.data), arg.inputs, dtype)
